@@ -775,3 +775,41 @@ def with_histories(gen_fn, every=3):
                      "key with another kind, files defining an imported key added and removed again, validate() in between; the last step "
                      "before the final validate() is a replacement or a removal)")
     return g
+
+
+# ------------------------------------------------------------------ C17: what the qualified names should be, read off the text
+def expected_names(text):
+    """(dotted package name, package.Name) by a reading of the text that is independent of the library: comments out,
+    the package clause with all white space removed, the name after the item keyword"""
+    t = re.sub(r"/\*.*?\*/", " ", text, flags=re.S)
+    t = re.sub(r"//[^\n\r]*", " ", t)
+    m = re.search(r"\bpackage\b(.*?);", t, flags=re.S)
+    it = re.search(r"\b(?:interface|parcelable|enum)\s+([A-Za-z_][A-Za-z0-9_]*)\s*\{", t)
+    if not m or not it:
+        return None
+    pkg = re.sub(r"\s+", "", m.group(1))
+    if not re.fullmatch(r"[A-Za-z_][A-Za-z0-9_]*(\.[A-Za-z_][A-Za-z0-9_]*)*", pkg):
+        return None
+    return pkg, pkg + "." + it.group(1)
+
+
+def post_C17(cases, xs):
+    byname = {c["name"]: c for c in cases}
+    findings, n = [], 0
+    for name, chk, verdict, detail in xs:
+        kind, _, fid = chk.partition(":")
+        if kind not in ("itemq", "pkgq") or name not in byname:
+            continue
+        texts = [t for f, t in byname[name].get("files", []) if f == fid]
+        if not texts:
+            continue
+        exp = expected_names(texts[-1])
+        if exp is None:
+            continue
+        n += 1
+        got = bytes.fromhex(detail).decode("utf-8", errors="replace")
+        want = exp[0] if kind == "pkgq" else exp[1]
+        if got != want:
+            findings.append({"case": name, "kind": "spec", "check": kind,
+                             "detail": f"file {fid}: the {'package' if kind == 'pkgq' else 'item'} symbol's qualified name is {got!r}, the text says {want!r}"})
+    return findings, {"qualified_names_compared": n}
